@@ -24,15 +24,17 @@ Print Assumptions C14_comment_between_fields.
 Theorem C14_ordinary_comment_after_member : forall md ub c m l1 l2, ordinary c = true ->
   is_comment m = false ->
   forall p, members_of md ub (l1 ++ m :: c :: l2) p = members_of md ub (l1 ++ m :: l2) p.
-Proof. exact ordinary_comment_after_member. Qed.
+Proof. intros. now apply ordinary_comment_after_member. Qed.
 Print Assumptions C14_ordinary_comment_after_member.
 
+(* documentation reaches exactly the next member: a newer documentation block replaces an
+   older one, and whether an ordinary comment in between keeps it is next_pending *)
 Theorem C14_doc_binds_next_member_only : forall md ub d m rest p, is_comment d = true -> is_comment m = false ->
   members_of md ub (d :: m :: rest) p =
   (if is_rule "const" m || is_rule "function" m || is_rule "error" m
-   then do x <- member_of md ub (doc_of d) m; do xs <- members_of md ub rest None; Ok (x :: xs)
+   then do x <- member_of md ub (next_pending pst_comment_keeps_doc p d) m; do xs <- members_of md ub rest None; Ok (x :: xs)
    else Reject ROther).
-Proof. exact doc_binds_next_member_only. Qed.
+Proof. intros. now apply doc_binds_next_member_only. Qed.
 Print Assumptions C14_doc_binds_next_member_only.
 
 Theorem C14_only_methods_keep_doc : forall md ub d1 d2 m, is_rule "function" m = false ->
@@ -40,20 +42,29 @@ Theorem C14_only_methods_keep_doc : forall md ub d1 d2 m, is_rule "function" m =
 Proof. exact member_doc_only_function. Qed.
 Print Assumptions C14_only_methods_keep_doc.
 
-(* the unrestricted statement is false: an ordinary comment between a documentation block and
-   its method discards the documentation (F24) *)
-Theorem C14_doc_then_comment_refuted :
-  let doc := T "COMMENT" "" [T "DOCUMENTATION" "/**
- * d
- */" []] in
-  let c := T "COMMENT" "// x" [] in
-  let f := T "function" "" [T "function_keyword" "method " []; T "ident" "f" []] in
-  members_of Debug false [doc; f] None = Ok [IFunc (mkFn "f" [] false (Some "*
+(* an ordinary comment anywhere in an interface body, also between a documentation block and
+   its method.  With the pinned upstream handling the documentation was lost (F24) ... *)
+Theorem C14_doc_then_comment_refuted_upstream :
+  members_of_gen false Debug false [doc_tree; fn_tree] None = Ok [IFunc (mkFn "f" [] false (Some "*
  * d
  *"))] /\
-  members_of Debug false [doc; c; f] None = Ok [IFunc (mkFn "f" [] false None)].
-Proof. exact doc_then_comment_loses_doc. Qed.
-Print Assumptions C14_doc_then_comment_refuted.
+  members_of_gen false Debug false [doc_tree; ord_tree; fn_tree] None = Ok [IFunc (mkFn "f" [] false None)].
+Proof. exact doc_then_comment_loses_doc_upstream. Qed.
+Print Assumptions C14_doc_then_comment_refuted_upstream.
+
+(* ... with the repaired handling an ordinary comment changes nothing, wherever it is and
+   whatever documentation is pending *)
+Theorem C14_ordinary_comment_anywhere : pst_comment_keeps_doc = true ->
+  forall md ub c l1 l2, ordinary c = true ->
+  forall p, members_of md ub (l1 ++ c :: l2) p = members_of md ub (l1 ++ l2) p.
+Proof. intros H md ub c l1 l2 HC p. unfold members_of. rewrite H. now apply ordinary_comment_anywhere. Qed.
+Print Assumptions C14_ordinary_comment_anywhere.
+
+(* the tree being checked (regenerated fact) *)
+Theorem C14_ordinary_comment_anywhere_current : forall md ub c l1 l2, ordinary c = true ->
+  forall p, members_of md ub (l1 ++ c :: l2) p = members_of md ub (l1 ++ l2) p.
+Proof. exact (C14_ordinary_comment_anywhere eq_refl). Qed.
+Print Assumptions C14_ordinary_comment_anywhere_current.
 
 (* comments between the tokens of a declaration (inside a parameter, a constant, a struct field,
    array brackets, an interface header): with the repaired positional reads of pst.rs two pair
